@@ -260,13 +260,13 @@ func reference(p cat.Program, entry string, v int) (result, error) {
 	return r, nil
 }
 
-// variantsOf lists the data variants of p: all five for a program with data; a program
+// variantsOf lists the data variants of p: all eight for a program with data; a program
 // without data has only "empty map" (its variant 0) and "nil".
 func variantsOf(p cat.Program) []int {
 	if len(p.Data) == 0 {
 		return []int{0, vNil}
 	}
-	return []int{0, 1, 2, vEmpty, vNil}
+	return []int{0, 1, 2, vEmpty, vNil, vJSON, vStringly, vSwapped}
 }
 
 func fillTable() error {
@@ -813,6 +813,14 @@ func classify(c Case) (bool, []string) {
 		if st.Var != 0 {
 			set["data-variant"] = true
 		}
+		switch st.Var {
+		case vEmpty:
+			set["data=empty-map"] = true
+		case vNil:
+			set["data=nil"] = true
+		case vJSON, vStringly, vSwapped:
+			set["data=retyped"] = true
+		}
 		if isHazard(p) {
 			set["hazard-program"] = true
 			if st.k() > 1 || mode == "probe" {
@@ -895,7 +903,7 @@ func genStep(t *rapid.T, p cat.Program) Step {
 	st.Entry = rapid.SampledFrom(entriesOf(p)).Draw(t, "entry")
 	st.K = rapid.SampledFrom([]int{1, 1, 1, 1, 2, 3, 5, 20}).Draw(t, "k")
 	if len(p.Data) > 0 {
-		st.Var = rapid.SampledFrom([]int{0, 0, 0, 1, 2, 1, 2, vEmpty, vNil}).Draw(t, "var")
+		st.Var = rapid.SampledFrom([]int{0, 0, 0, 1, 2, 1, 2, vEmpty, vNil, vJSON, vStringly, vSwapped, vJSON, vStringly}).Draw(t, "var")
 	} else if rapid.IntRange(0, 3).Draw(t, "nil-data") == 0 {
 		st.Var = vNil
 	}
@@ -1104,6 +1112,16 @@ func TestProp(t *testing.T) {
 			// with data, with an empty map, with no data at all - repeated and interleaved
 			each("variants", Case{Steps: []Step{st(vEmpty, 3), st(0, 1), st(vNil, 3), st(1, 1), st(vEmpty, 1), st(vNil, 1), st(0, 1)}})
 			each("variants", Case{Steps: []Step{st(0, 1), st(vNil, 2), st(2, 1), st(vEmpty, 2), st(0, 1)}})
+			// same expression texts, retyped operands: every typing is once the FIRST the engine
+			// sees (what it would specialise a compiled expression for), followed by all others
+			ring := []int{0, vJSON, vStringly, vSwapped}
+			for r := range ring {
+				var steps []Step
+				for j := 0; j <= len(ring); j++ {
+					steps = append(steps, st(ring[(r+j)%len(ring)], 1))
+				}
+				each("retyped", Case{Steps: steps})
+			}
 		} else {
 			each("variants", Case{Steps: []Step{st(vNil, 3), st(0, 2), st(vNil, 1), st(0, 1)}})
 		}
@@ -1126,7 +1144,30 @@ func TestProp(t *testing.T) {
 			}
 		}
 	}
-	pairHistories("pairs", cs, false, func(int, int) bool { return true })
+	// (of a family of twin programs - same template text, other blanks or other value types -
+	// one member takes part here: on engines of their own, twins are ordinary programs; all
+	// members meet each other on the shared engine below)
+	var core []combo
+	famSeen := map[string]string{}
+	for _, cb := range cs {
+		fam := ""
+		switch {
+		case hasFeat(cb.p, "near-twin"):
+			fam = "near-twin"
+		case hasFeat(cb.p, "arithmetic"):
+			fam = "num-twin"
+		case hasFeat(cb.p, "retype-twin"):
+			fam = "retype-twin"
+		}
+		if fam != "" {
+			if first, ok := famSeen[fam]; ok && first != cb.p.Name {
+				continue
+			}
+			famSeen[fam] = cb.p.Name
+		}
+		core = append(core, cb)
+	}
+	pairHistories("pairs", core, false, func(int, int) bool { return true })
 	// the same with one engine and one filesystem for all programs that can share them
 	// (thorough: all ordered pairs; quick: every third chunk, rotating with A)
 	sh := sharedSet()
@@ -1139,23 +1180,27 @@ func TestProp(t *testing.T) {
 	pairHistories("pairs-shared", scs, true, func(ai, chunk int) bool { return run.Thorough() || (ai+chunk)%3 == 0 })
 	// near-twin programs on the shared engine, exhaustively in both tiers: every ordered pair of
 	// twins x every pair of entries as A, B, A (the first render on the engine is A's)
-	var twins []combo
-	for _, cb := range scs {
-		if hasFeat(cb.p, "near-twin") {
-			twins = append(twins, cb)
-		}
-	}
-	for _, a := range twins {
-		for _, bb := range twins {
-			if a.p.Name == bb.p.Name {
-				continue
+	for _, family := range []string{"near-twin", "retype-twin"} {
+		var twins []combo
+		for _, cb := range scs {
+			if hasFeat(cb.p, family) {
+				twins = append(twins, cb)
 			}
-			sa := Step{Prog: a.p.Name, Entry: a.entry}
-			each("twins-shared", Case{Shared: true, Steps: []Step{sa, {Prog: bb.p.Name, Entry: bb.entry}, sa}})
+		}
+		for _, a := range twins {
+			for _, bb := range twins {
+				// twins meet through the per-engine caches: both entries on the root template's
+				// engine or both on the *Vue (cross pairs are covered by pairs-shared)
+				if a.p.Name == bb.p.Name || usesVue(a.entry) != usesVue(bb.entry) {
+					continue
+				}
+				sa := Step{Prog: a.p.Name, Entry: a.entry}
+				each("twins-shared", Case{Shared: true, Steps: []Step{sa, {Prog: bb.p.Name, Entry: bb.entry}, sa}})
+			}
 		}
 	}
 	if ok {
-		rec.Exhaustive(fmt.Sprintf("all ordered pairs (A, B) of the %d applicable (program, entry) combinations of %d programs as history A, B, A on long-lived engines; every hazard program x entry x data variant probed 30+30 times; every (program, entry) through the data variants 0,1,0,2,1,0 on one engine", len(cs), len(named)))
+		rec.Exhaustive(fmt.Sprintf("all ordered pairs (A, B) of %d applicable (program, entry) combinations (one member per twin family) of %d programs as history A, B, A on long-lived engines; all ordered pairs of twin-family members x entry pairs on the shared engine; every (program, entry) with every value typing first on the engine followed by the others; every hazard program x entry x data variant probed 30+30 times; every (program, entry) through the data variants 0,1,0,2,1,0 on one engine", len(core), len(named)))
 	}
 
 	run.Rapid(t, rec, "history", genHistory, classify, check)
